@@ -1103,6 +1103,20 @@ fn run_gated(c: &Case) -> Run {
                     handles[h].as_ref().unwrap().send(i.call().close());
                 }
             }
+            ('b', Some(n), Some(i)) => {
+                // n entries in a row through handle 0: send, RootSink::merge and both guard kinds in turn
+                if live(&handles, 0) {
+                    let w = handles[0].as_ref().unwrap();
+                    for k in 0..n {
+                        match k % 4 {
+                            0 => w.send(i.call().close()),
+                            1 => RootSink::merge(w, i.call().close()),
+                            2 => drop(i.call().close_and_merge(w.clone())),
+                            _ => drop(MergeOnDrop::new(i.call().close(), w.clone())),
+                        }
+                    }
+                }
+            }
             ('c', Some(h), None) => {
                 if live(&handles, h) {
                     let n = handles[h].as_ref().unwrap().clone();
@@ -1558,6 +1572,12 @@ fn oracle_gated(c: &Case, run: &Run) -> Option<String> {
             ('s', _, Some(i)) if live => {
                 cur.push(i.clone());
                 raw.push(i.clone());
+            }
+            ('b', Some(n), Some(i)) if handles[0] => {
+                for _ in 0..n {
+                    cur.push(i.clone());
+                    raw.push(i.clone());
+                }
             }
             ('A', _, _) if live => epochs.push(std::mem::take(&mut cur)),
             ('c', _, _) if live => handles.push(true),
@@ -2542,6 +2562,18 @@ fn main() {
         for k in 0..n_deg {
             cases.push(gen_case(&mut rng, "cap", k % 3 == 2, 12));
             cases.push(gen_case(&mut rng, "keyonly", k % 3 == 2, 25));
+        }
+        // bursts: more entries queued behind a held worker than any bounded queue would take
+        let burst = In { endpoint: "a".into(), shard: 1, bytes: 1, last: 4, obs: vec![(5, 1)], opt: Some(2), inner: 1 };
+        for n in if thorough { vec![4097usize, 5000, 20000] } else { vec![4097, 5000] } {
+            let toks = vec![
+                Tok::new('s', Some(0), Some(gen_input(&mut rng, false))),
+                Tok::new('G', Some(0), None),
+                Tok::new('A', Some(0), None),
+                Tok::new('b', Some(n), Some(burst.clone())),
+                Tok::new('G', Some(1), None),
+            ];
+            cases.push(Case { head: vec!["gated".into()], toks });
         }
         // overlapping flush requests behind a gate
         let n_gated = if thorough { 8000 } else { 400 };
